@@ -326,13 +326,48 @@ func c03Worker(w *W) {
 	console.maxIn.Store(0)
 	var wg sync.WaitGroup
 	start := make(chan struct{})
+	watchFile := ""
+	for _, s := range su.sinks {
+		if strings.HasPrefix(s, "file:") && watchFile == "" {
+			watchFile = strings.TrimPrefix(s, "file:")
+		}
+	}
+	var watchBad atomic.Bool
+	var watched atomic.Int64
 	for g := range evs {
 		wg.Add(1)
 		go func(g int) {
 			defer wg.Done()
 			<-start
-			for _, e := range evs[g] {
+			for i, e := range evs[g] {
+				if watchFile == "" || i%8 != g%8 || watchBad.Load() {
+					c03emit(tag, e)
+					continue
+				}
+				// a watcher: how big is the file now - log - and when the call has returned, the bytes added since contain this
+				// event's complete line (the one it produced alone), whatever the other goroutines are doing meanwhile
+				var s0 int64
+				if fi, err := os.Stat(watchFile); err == nil {
+					s0 = fi.Size()
+				}
 				c03emit(tag, e)
+				f, err := os.Open(watchFile)
+				if err != nil {
+					continue
+				}
+				fi, _ := f.Stat()
+				if fi == nil || fi.Size() < s0 {
+					f.Close()
+					continue
+				}
+				chunk := make([]byte, fi.Size()-s0)
+				n, _ := f.ReadAt(chunk, s0)
+				f.Close()
+				watched.Add(1)
+				if want := alone["file:"+watchFile][e.id]; len(want) > 0 && !bytes.Contains(chunk[:n], want) && watchBad.CompareAndSwap(false, true) {
+					w.Violate("C03:line-not-in-file-when-call-returned:file", fmt.Sprintf("[%s] %d goroutines logging: the call for event %s has returned; the %d bytes the file gained since just before the call do not contain its line (%d bytes)", su.name, G, e.id, n, len(want)),
+						map[string]any{"setup": su.name, "cap": capName, "g": G, "sink": "file"})
+				}
 			}
 		}(g)
 	}
@@ -365,6 +400,7 @@ func c03Worker(w *W) {
 	wg.Wait()
 	bridgeStop.Store(true)
 	bw.Wait()
+	w.Count("calls_watched_for_their_line_in_the_file_at_return", watched.Load())
 	if su.cfg != nil {
 		log.Destroy()
 	}
